@@ -1,6 +1,7 @@
 from .queue_common import QUEUE_TB, QUEUE_ASSUMPTIONS
 
 CONFIG = dict(
+    also_release=True,
     harness="c05",
     suites=[
         dict(suffix="-s", comparisons=[dict(name="model", code=500, kind="eq"),
